@@ -221,7 +221,8 @@ MANIFEST = dict(
     text=('Every obligation generated from the real source of the planners (calculate_num_parts, '
           'calculate_range_parameter, ChunksizeAdjuster.*) against contracts taken from the property statement is '
           'discharged by z3 for all integers (no scaling down, no bound on loop iterations; the doubling loop has an '
-          'inductive invariant and a variant); an IEEE-754 lemma proves the float ceil-division exact below 2**53.'),
+          'inductive invariant and a variant); an IEEE-754 lemma proves the float ceil-division exact below 2**53.'
+          " Also: the legacy parts thread plans ceil(size / chunksize) ranges and maps _download_range over all of them with the caller's arguments."),
     note=('Python ints are mathematical; size/float(part) is modelled over the reals, justified by the proved lemma '
           'from A-IEEE (correct rounding, monotonicity, exactness on integers) for operands < 2**53 (checked at each '
           'division site); f-strings of non-negative ints are compared component-wise (A-FMT).'),
